@@ -804,6 +804,12 @@ func symtabInv() bool {
 	})
 }
 
+// specInSet: membership in a string set.
+func specInSet(m map[string]struct{}, k string) bool {
+	_, ok := m[k]
+	return ok
+}
+
 // symtabInvAt: the invariant of one (root) table.
 func symtabInvAt(t *SymbolTable) bool {
 	return verifrt.Forall(func(n string) bool {
